@@ -43,7 +43,10 @@ type ReqSpec struct {
 	// Flush: the handler calls W.Flush() ("flush") or W.FlushError() ("flusherr") first of all (after a
 	// "before" panic, before anything else). Only generated with Code == 0, so the status is still set
 	// at most once: flushing an untouched response commits the implicit 200.
-	Flush  string `json:"flush,omitempty"`
+	Flush string `json:"flush,omitempty"`
+	// Pad: the request URI carries a query parameter of that many bytes (REQ_BEG / REQ_END lines far
+	// beyond the handlers' pooled-buffer limit; the requests after it must log only themselves)
+	Pad    int    `json:"pad,omitempty"`
 	PV     string `json:"pv"` // panic value kind
 	Remote string `json:"remote,omitempty"`
 }
@@ -56,6 +59,9 @@ func (r ReqSpec) uri() string {
 	u := fmt.Sprintf("%s%d?code=%d&body=%v&copy=%v&panic=%s&pv=%s", base, r.N, r.Code, r.Body, r.Copy, r.Panic, r.PV)
 	if r.Flush != "" {
 		u += "&flush=" + r.Flush
+	}
+	if r.Pad > 0 {
+		u += "&pad=" + strings.Repeat("p", r.Pad)
 	}
 	return u
 }
@@ -127,13 +133,22 @@ func panicValue(kind string) any {
 		return http.ErrAbortHandler
 	case "nilerr": // nil-like: a nil pointer whose value-receiver Error method cannot be called
 		return (*valErr)(nil)
+	case "badstructerr": // an error held by value (nothing nil about it) whose Error method panics
+		return badErr{7}
 	}
 	return nil // "nil": panic(nil) → *runtime.PanicNilError
 }
 
-var pvKinds = []string{"string", "error", "wrapped", "int", "struct", "pointer", "nilptr", "bytes", "nil", "wrapabort", "joinabort", "aborttext", "abort", "nilerr"}
+var pvKinds = []string{"string", "error", "wrapped", "int", "struct", "pointer", "nilptr", "bytes", "nil", "wrapabort", "joinabort", "aborttext", "abort", "nilerr", "badstructerr"}
 
 type valErr struct{ msg string }
+
+type badErr struct{ n int }
+
+func (badErr) Error() string { panic("badErr.Error called") }
+
+// noRendering: panic values that have no text of their own (their Error method cannot be called).
+func noRendering(pv string) bool { return pv == "nilerr" || pv == "badstructerr" }
 
 func (e valErr) Error() string { return e.msg }
 
@@ -333,7 +348,7 @@ func parseRecord(kind string, pl []byte) (rec, error) {
 }
 
 func wantPanicMatches(kind, pv string, r rec) string {
-	if pv == "nilerr" {
+	if noRendering(pv) {
 		// the value has no rendering of its own (its Error method cannot be called on nil); the
 		// record must carry *a* panic attribute: JSON string / one text token / fmt's "<nil>"
 		switch kind {
@@ -343,7 +358,7 @@ func wantPanicMatches(kind, pv string, r rec) string {
 			}
 		case "nano":
 			if !strings.HasSuffix(r.panicText, " <nil>") && !strings.Contains(r.panicText, "PANIC") {
-				return fmt.Sprintf("record does not end in a rendering of the nil pointer: …%q", tailS(r.panicText, 60))
+				return fmt.Sprintf("record does not end in a rendering of the value: …%q", tailS(r.panicText, 60))
 			}
 		}
 		return ""
@@ -718,8 +733,8 @@ func runCase(cs Case, st *stats) (key, expected, observed string) {
 				pvs = append(pvs, pv)
 			}
 			sort.Slice(pvs, func(i, j int) bool {
-				if (pvs[i] == "nilerr") != (pvs[j] == "nilerr") {
-					return pvs[j] == "nilerr" // the value without a rendering of its own matches anything: try it last
+				if noRendering(pvs[i]) != noRendering(pvs[j]) {
+					return noRendering(pvs[j]) // the value without a rendering of its own matches anything: try it last
 				}
 				a, b := fmt.Sprint(recoveredValue(pvs[i])), fmt.Sprint(recoveredValue(pvs[j]))
 				if len(a) != len(b) {
@@ -814,6 +829,9 @@ func productReqs() []ReqSpec {
 						}
 						n++
 						out = append(out, ReqSpec{N: n, Method: methodsPool[n%len(methodsPool)], Match: match, Code: code, Body: body, Copy: body && n%2 == 0, Panic: pw, PV: pv, Remote: remotes[n%len(remotes)]})
+						if n%37 == 0 {
+							out[len(out)-1].Pad = []int{17000, 20000, 40000}[n%3]
+						}
 						if match && code == 0 && (pv == "" || pv == pvKinds[0] || pv == pvKinds[len(pvKinds)-1]) {
 							for _, fl := range []string{"flush", "flusherr"} {
 								n++
@@ -836,6 +854,9 @@ func randReqs(r *rand.Rand, n int) []ReqSpec {
 			rq.Code = codes[r.Intn(len(codes))]
 			rq.Body = r.Intn(2) == 0
 			rq.Copy = rq.Body && r.Intn(2) == 0
+			if r.Intn(40) == 0 {
+				rq.Pad = 16000 + r.Intn(30000)
+			}
 			if rq.Code == 0 && r.Intn(3) == 0 {
 				rq.Flush = []string{"flush", "flusherr"}[r.Intn(2)]
 			}
